@@ -6,6 +6,15 @@ pthread_atfork, stored into a handler field of a particular object, listed in a 
 constructor attribute) or by being exported (external linkage).  Accesses are attributed to the
 innermost *stable* frame of their calling context, so extracting, inlining or renaming static helpers
 changes neither which exemption applies nor the instance names/counts of the obligations.
+
+Iteration 2: nothing is keyed by the name of a file-scope variable or lock either.  `gpath` names a location inside a
+file-scope object by its access path (a field of a file-scope struct is the same kind of location as a variable);
+`addr_aliases`/`pointee`/`addr_targets` follow pointers that are held in single-definition locals, returned by inlined
+accessors or delivered through out-parameters; `lock_ident` is the identity of a lock object whatever wrapper or
+cached pointer it is reached through; `flag_values` tracks the possible values of integer flags (value sets narrowed
+by `if`/`switch` outcomes); `feasible_edge` prunes branches that constants decide (`if (0)` after the substitution of
+a mode argument, `handler == SIG_DFL` for a function); `dispatch_tables`/`table_call_targets` resolve indirect calls
+through file-scope tables of functions.
 """
 from ..core import AnalysisBroken, strip, strip_load, canon, last_member, lvalue_steps, lvalue_root, forward, norm_cond, walk
 from ..analyses import locksets, held
@@ -98,12 +107,15 @@ def thread_bodies(prog):
 
 def installed_at(prog, steps):
     """Functions stored into the location whose lvalue steps start with `steps`
-    (innermost first: [('iv_event','handler'), ('work_pool_priv','ev')] is `pool->ev.handler`)."""
+    (innermost first: [('iv_event','handler'), ('work_pool_priv','ev')] is `pool->ev.handler`; a field None matches
+    any field of that record)."""
     out = []
     steps = list(steps)
     for f, e in event_pool(prog):
-        if e['ev'] == 'store' and 'rhs' in e and list(lvalue_steps(e['lhs']))[:len(steps)] == steps:
-            out.append(func_node(prog, f, e['rhs']))
+        if e['ev'] == 'store' and 'rhs' in e:
+            got = list(lvalue_steps(e['lhs']))[:len(steps)]
+            if len(got) == len(steps) and all(g == s_ or (s_[1] is None and g[0] == s_[0]) for g, s_ in zip(got, steps)):
+                out.append(func_node(prog, f, e['rhs']))
     return _uniq(out)
 
 
@@ -135,6 +147,70 @@ def api(prog, *names):
             raise AnalysisBroken('exported function %s not found' % n)
         out.append(f)
     return out
+
+
+def dispatch_tables(prog):
+    """{name of a file-scope object: [Func]}: functions listed in the static initialiser of a file-scope object that is
+    neither a poll-method table (the inliner expands those) nor a tls-user descriptor (its hooks are entry points)."""
+    c = getattr(prog, '_h14_tables', None)
+    if c is not None:
+        return c
+    out = {}
+    for key, g in sorted(prog.globals.items()):
+        init = g.get('init') if isinstance(g, dict) else None
+        if not isinstance(init, dict) or g.get('extern_decl') or g.get('record') in ('iv_fd_poll_method', 'iv_tls_user'):
+            continue
+        fs = []
+        for x in walk(init):
+            if x.get('k') == 'var' and x.get('vk') == 'func':
+                t = prog.resolve(g.get('unit'), x['name']) or prog.funcs.get(x['name'])
+                if t is not None and t.blocks:
+                    fs.append(t)
+        if fs:
+            out.setdefault(g['name'], [])
+            out[g['name']] += [f for f in _uniq(fs) if f.q not in {y.q for y in out[g['name']]}]
+    prog._h14_tables = out
+    return out
+
+
+def table_only_functions(prog):
+    """q-names of the functions whose address is taken in dispatch tables only (never stored or passed by code, not in
+    a poll-method table or tls-user descriptor): they are entered from the indirect calls through their table alone."""
+    c = getattr(prog, '_h14_table_only', None)
+    if c is not None:
+        return c
+    tabled = {f.q for fs in dispatch_tables(prog).values() for f in fs}
+    other = set()
+    for f in prog.all_funcs():
+        u = prog.unit_of(f)
+        for e in f.events():
+            for x in walk(e):
+                if x.get('k') == 'var' and x.get('vk') == 'func':
+                    t = (prog.resolve(u, x['name']) if u else None) or prog.funcs.get(x['name'])
+                    if t is not None:
+                        other.add(t.q)
+    for key, g in prog.globals.items():
+        init = g.get('init') if isinstance(g, dict) else None
+        if isinstance(init, dict) and g.get('record') in ('iv_fd_poll_method', 'iv_tls_user'):
+            for x in walk(init):
+                if x.get('k') == 'var' and x.get('vk') == 'func':
+                    t = prog.resolve(g.get('unit'), x['name']) or prog.funcs.get(x['name'])
+                    if t is not None:
+                        other.add(t.q)
+    c = {q for q in tabled - other if prog.funcs[q].static}
+    prog._h14_table_only = c
+    return c
+
+
+def table_call_targets(prog, e, al=None):
+    """[Func] an indirect call event may enter when the called pointer is read from a dispatch table
+    (`ops[kind].run(x)`, `tbl[i](x)`, also through an alias local / an accessor that returns `&ops[kind]`), else None"""
+    if e['ev'] != 'call' or 'fnexpr' not in e:
+        return None
+    gp = gpath(e['fnexpr'], al, cached_ok=True)
+    if gp is None:
+        return None
+    return dispatch_tables(prog).get(gp[0])
 
 
 def stable_functions(prog):
@@ -192,12 +268,72 @@ def only_within(prog, f, anchors, _seen=None):
     return all(only_within(prog, c, anchors, _seen) for c in callers)
 
 
+def only_via(prog, f, anchors, _seen=None):
+    """True iff every way to execute `f` passes through one of the functions `anchors` (q-names): f is an anchor, or
+    f is neither public API nor address-taken and each of its callers is only_via.  (Unlike only_within, an internal
+    function with external linkage is not an entry point of its own: users cannot name it.)"""
+    _seen = set() if _seen is None else _seen
+    if f.q in anchors:
+        return True
+    if f.q in _seen:
+        return True
+    _seen.add(f.q)
+    if f.q in public_api(prog) or f.q in roles.address_taken(prog) or f.constructor:
+        return False
+    callers = []
+    for (c, e) in prog.callers_of(f.name):
+        u = prog.unit_of(c)
+        t = (prog.resolve(u, e['callee']) if u else None) or prog.funcs.get(e['callee'])
+        if t is not None and t.q == f.q:
+            callers.append(c)
+    if not callers:
+        return False
+    return all(only_via(prog, c, anchors, _seen) for c in callers)
+
+
 # --------------------------------------------------------------------------
 # small dataflow predicates on an inlined root
 # --------------------------------------------------------------------------
 
+def _nonnull_constant(x):
+    """a function designator or the address of an object: never NULL"""
+    v = strip(x)
+    if isinstance(v, dict) and v.get('k') == 'var' and v.get('vk') == 'func':
+        return True
+    if isinstance(v, dict) and v.get('k') == 'addr':
+        t = strip(v['e'])
+        return isinstance(t, dict) and (t.get('k') == 'var' or (t.get('k') == 'member' and not t['arrow']) or t.get('vk') == 'func')
+    return False
+
+
+def feasible_edge(blk, si):
+    """False when the branch outcome is decided by constants alone: a function designator / object address compared
+    with NULL (a handler parameter that was substituted by the function passed: `handler == SIG_DFL`), two integers."""
+    t = blk.term
+    if not t or t.get('cond') is None or len(blk.succ) != 2 or t.get('cls') in ('SwitchStmt', 'MethodDispatch'):
+        return True
+    for (op, lc, rc, l, r) in norm_cond(t['cond'], si == 0):
+        if op == 'const':
+            if lc == 'False':
+                return False
+            continue
+        if rc == '0' and op in ('==', '!=') and _nonnull_constant(l):
+            if op == '==':
+                return False
+            continue
+        lv, rv = _intval(l), _intval(r) if isinstance(r, dict) else None
+        if lv is not None and rv is not None:
+            if not {'==': lv == rv, '!=': lv != rv, '<': lv < rv, '>': lv > rv, '<=': lv <= rv, '>=': lv >= rv}.get(op, True):
+                return False
+    return True
+
+
+def _pruned(blk, si, s):
+    return s if feasible_edge(blk, si) else None
+
+
 def may_follow(g, pred, reset=None):
-    """{(b,i): bool}: some path from the entry to the point executed an event matching pred
+    """{(b,i): bool}: some (feasible) path from the entry to the point executed an event matching pred
     (and none matching reset since)."""
     def tr(e, s):
         if pred(e):
@@ -205,15 +341,20 @@ def may_follow(g, pred, reset=None):
         if reset is not None and reset(e):
             return False
         return s
-    _, ev_in = forward(g, False, tr, lambda a, b: a or b)
+    _, ev_in = forward(g, False, tr, lambda a, b: a or b, edge=_pruned)
     return ev_in
 
 
-def must_follow(g, pred):
-    """{(b,i): bool}: every path from the entry to the point executed an event matching pred."""
+def must_follow(g, pred, reset=None):
+    """{(b,i): bool}: every (feasible) path from the entry to the point executed an event matching pred
+    (and none matching reset since)."""
     def tr(e, s):
-        return True if pred(e) else s
-    _, ev_in = forward(g, False, tr, lambda a, b: a and b)
+        if pred(e):
+            return True
+        if reset is not None and reset(e):
+            return False
+        return s
+    _, ev_in = forward(g, False, tr, lambda a, b: a and b, edge=_pruned)
     return ev_in
 
 
@@ -258,9 +399,15 @@ def fork_child(g):
     return {k: bool(v) for k, v in ev_in.items()}
 
 
-def lock_aliases(g):
+def addr_aliases(g):
     """{local: address expression}: local pointer variables whose every assignment in g stores the address of the
-    same object (`___mutex_t *l = &st->event_list_mutex;`), so that a lock call through them names that object."""
+    same object (`___mutex_t *l = &st->event_list_mutex;`, `struct iv_list_head *q = &pool->work_items;`, the result
+    variable of an inlined accessor `return &grp.lock;`), so that an access or a lock call through them names that
+    object.  The variables the address expression reads must themselves be assigned at most once and never have
+    their address taken (the address is then the same at every use)."""
+    c = getattr(g, '_h14_aliases', None)
+    if c is not None:
+        return c
     defs = {}
     taken = set()
     for e in g.events():
@@ -280,27 +427,215 @@ def lock_aliases(g):
         if len({canon(r) for r in rhss}) != 1:
             continue
         r = strip(rhss[0])
-        if isinstance(r, dict) and r.get('k') == 'addr' and strip(r['e']).get('k') in ('member', 'var'):
+        if not (isinstance(r, dict) and r.get('k') == 'addr' and isinstance(strip(r['e']), dict)
+                and strip(r['e']).get('k') in ('member', 'var', 'index')):
+            continue
+        stable = True
+        for x in walk(r):
+            if x.get('k') == 'var' and x.get('vk') not in ('global', 'staticlocal', 'func'):
+                if x['name'] in taken or len(defs.get(x['name'], ())) > 1 or x['name'] == name:
+                    stable = False
+            elif x.get('k') in ('call', 'assign', 'incdec', 'stmtexpr'):
+                stable = False
+        if stable:
             out[name] = rhss[0]
+    # copies of aliases: `r = q;` with q an alias (the result variable of an inlined accessor copied into a local)
+    changed = True
+    while changed:
+        changed = False
+        for name, rhss in defs.items():
+            if name in out or name in taken or any(r is None for r in rhss):
+                continue
+            srcs = set()
+            for r in rhss:
+                v = r
+                while isinstance(v, dict) and v.get('k') in ('load', 'cast', 'paren') and 'e' in v:
+                    v = v['e']
+                srcs.add(v['name'] if isinstance(v, dict) and v.get('k') == 'var' and v['name'] in out and v['name'] != name else None)
+            if len(srcs) == 1 and None not in srcs:
+                out[name] = out[srcs.pop()]
+                changed = True
+    g._h14_aliases = out
     return out
 
 
+def addr_targets(g, arg, al=None):
+    """object expressions a pointer argument may point to: `&X`, an alias local, or a local all of whose assignments
+    store addresses (the result of an inlined selector `return flag ? &a->t : &glob;`)"""
+    t = pointee(arg, al)
+    if t is not None:
+        return [t]
+    v = arg
+    while isinstance(v, dict) and v.get('k') in ('load', 'cast', 'paren') and 'e' in v:
+        v = v['e']
+    if not (isinstance(v, dict) and v.get('k') == 'var' and v.get('vk') not in ('global', 'staticlocal', 'func')):
+        return []
+    out = []
+    for e in g.events():
+        if e['ev'] == 'store':
+            l = _lhs_var(e['lhs'])
+            if l is not None and l['name'] == v['name']:
+                r = strip(e['rhs']) if e.get('op') == '=' and 'rhs' in e else None
+                if isinstance(r, dict) and r.get('k') == 'addr':
+                    out.append(r['e'])
+                else:
+                    return []
+        elif e['ev'] == 'call':
+            # the address of the local handed to a function that is not inlined: it may store anything
+            for a in e.get('args', []):
+                t = strip(a)
+                if isinstance(t, dict) and t.get('k') == 'addr':
+                    t2 = strip(t['e'])
+                    if isinstance(t2, dict) and t2.get('k') == 'var' and t2['name'] == v['name']:
+                        return []
+    return out
+
+
+def _lhs_var(lhs):
+    """the variable a store assigns: `v = ..`, or `*&v = ..` (an out-parameter of an inlined helper)"""
+    l = strip(lhs)
+    if isinstance(l, dict) and l.get('k') == 'deref':
+        t = l['e']
+        while isinstance(t, dict) and t.get('k') in ('load', 'cast', 'paren') and 'e' in t:
+            t = t['e']
+        if isinstance(t, dict) and t.get('k') == 'addr':
+            l = strip(t['e'])
+    return l if isinstance(l, dict) and l.get('k') == 'var' else None
+
+
+lock_aliases = addr_aliases
+
+
+def _alias_target(x, al):
+    """x (a pointer-valued expression) has a statically known pointee: it is a read of an alias local, or
+    (a cast of) `&object` (as left by the substitution of an address argument for a parameter that the callee casts:
+    `((struct iv_task_ *)&st->events_local)->list`): the object expression it points to, else None"""
+    v = x
+    while isinstance(v, dict) and v.get('k') in ('load', 'cast', 'paren') and 'e' in v:
+        if v.get('_was'):
+            return None
+        v = v['e']
+    if isinstance(v, dict) and v.get('k') == 'addr' and not v.get('_was'):
+        return v['e']
+    if not al:
+        return None
+    if isinstance(v, dict) and v.get('k') == 'var' and v.get('vk') not in ('global', 'staticlocal', 'func') \
+            and v['name'] in al and not v.get('_was'):
+        t = strip(al[v['name']])
+        return t['e'] if isinstance(t, dict) and t.get('k') == 'addr' else None
+    return None
+
+
+def gpath(x, al=None, cached_ok=False):
+    """(variable, field, ...) of an access path that stays inside a file-scope object (no pointer is followed; array
+    indices are dropped; alias locals and `*p` of alias locals are resolved), else None.  A field of a file-scope
+    struct is a location of its own: `grp.lock`, `grp.tree.root`."""
+    path = []
+    n = 0
+    while isinstance(x, dict) and n < 64:
+        n += 1
+        k = x.get('k')
+        if x.get('_was') and k != 'addr' and not cached_ok:
+            return None      # a cached value: the memory was read where the local was assigned
+        if k == 'member':
+            if x['arrow']:
+                t = _alias_target(x['base'], al)
+                if t is None:
+                    return None
+                path.append(x['field'])
+                x = t
+            else:
+                path.append(x['field'])
+                x = x['base']
+        elif k == 'index':
+            x = strip_load(x['base'])
+        elif k == 'deref':
+            t = _alias_target(x['e'], al)
+            if t is None:
+                return None
+            x = t
+        elif k == 'var':
+            if x.get('vk') in ('global', 'staticlocal'):
+                return (x['name'],) + tuple(reversed(path))
+            return None
+        elif k in ('cast', 'load', 'paren'):
+            x = x['e']
+        else:
+            return None
+    return None
+
+
+def pointee(arg, al=None):
+    """object expression whose address the (argument) expression `arg` is: `&X` gives X, a read of an alias local
+    gives the object it was assigned the address of; else None"""
+    a = strip(arg)
+    if isinstance(a, dict) and a.get('k') == 'load':
+        a2 = strip(a['e'])
+        if isinstance(a2, dict) and a2.get('k') == 'addr':
+            a = a2
+    if isinstance(a, dict) and a.get('k') == 'addr':
+        return a['e']
+    return _alias_target(arg, al)
+
+
+def lock_ident(arg, al=None):
+    """Identity of the lock object a lock function is given: the path of a file-scope object (`iv_wait_lock`,
+    `grp.lock` -- a field of a file-scope struct is the same kind of location as a file-scope variable),
+    record.field for a lock inside a heap object (any object of that type).  Lock pointers held in alias locals
+    and returned by inlined accessor functions are resolved."""
+    obj = pointee(arg, al)
+    if obj is None:
+        return canon(arg)
+    gp = gpath(obj, al)
+    if gp is not None:
+        return '.'.join(gp)
+    o = strip(obj)
+    while isinstance(o, dict) and o.get('k') in ('cast', 'load', 'paren'):
+        o = o['e']
+    if isinstance(o, dict) and o.get('k') == 'member':
+        if o['arrow']:
+            t = _alias_target(o['base'], al)
+            if t is not None:
+                return lock_ident({'k': 'addr', 'e': dict(o, arrow=False, base=t)}, al)
+        return '%s.%s' % (o.get('record'), o['field'])
+    if isinstance(o, dict) and o.get('k') == 'var':
+        return o['name']
+    return canon(arg)
+
+
 def lock_effect_in(g):
-    """lock_effect() for the events of g with lock pointers held in locals resolved"""
-    from ..analyses import lock_effect, LOCK_FUNCS
-    al = lock_aliases(g)
+    """[(op, lock id)] of an event of g (analyses.lock_effect with lock identities by lock_ident())"""
+    from ..analyses import LOCK_FUNCS, SIGBLOCK
+    from ..core import is_int
+    al = addr_aliases(g)
 
     def eff(e):
-        if al and e['ev'] == 'call' and e.get('callee') in LOCK_FUNCS and e.get('args'):
-            a = strip(e['args'][0])
-            if isinstance(a, dict) and a.get('k') == 'var' and a['name'] in al:
-                e = dict(e, args=[al[a['name']]] + list(e['args'][1:]))
-        return lock_effect(e)
+        if e['ev'] != 'call':
+            return []
+        nm = e.get('callee')
+        if nm in LOCK_FUNCS and e.get('args'):
+            kind, ai = LOCK_FUNCS[nm]
+            lid = lock_ident(e['args'][ai], al)
+            if kind == 'lock':
+                return [('lock', lid)]
+            if kind == 'unlock':
+                return [('unlock', lid)]
+            if kind == 'lock+sig':
+                return [('lock', SIGBLOCK), ('lock', lid)]
+            if kind == 'unlock+sig':
+                return [('unlock', lid), ('unlock', SIGBLOCK)]
+        if nm == 'pthr_sigmask' and e.get('args'):
+            how = strip(e['args'][0])
+            if is_int(how, 0):
+                return [('lock', SIGBLOCK)]
+            if is_int(how, 2) or is_int(how, 1):
+                return [('unlock', SIGBLOCK)]
+        return []
     return eff
 
 
 def locksets_in(g, entry=frozenset(), eff=None):
-    """analyses.locksets with lock pointers in locals resolved"""
+    """analyses.locksets with lock identities by lock_ident()"""
     eff = eff or lock_effect_in(g)
 
     def tr(e, S):
@@ -316,7 +651,9 @@ def locksets_in(g, entry=frozenset(), eff=None):
             return a
         da, db = dict(a), dict(b)
         return frozenset((l, da[l] if da[l] == db[l] else 'several') for l in da if l in db)
-    _, ev_in = forward(g, frozenset((l, 'entry') for l in entry), tr, join)
+    # branches decided by constants alone (an argument substituted for a mode parameter: `if (0)`) are not followed:
+    # the points behind them are absent from the result
+    _, ev_in = forward(g, frozenset((l, 'entry') for l in entry), tr, join, edge=_pruned)
     return ev_in
 
 
@@ -404,6 +741,125 @@ def flag_guards(g, names):
         return s
     _, ev_in = forward(g, frozenset(), tr, lambda a, b: a & b, edge=edge)
     return {k: frozenset(a for a in v if a[0] != 'alias') for k, v in ev_in.items()}
+
+
+def flag_values(g, domains, valof):
+    """Possible values of file-scope flags at every point of g, as this thread last observed them.
+    domains: {flag path: frozenset(all values it can hold: initial value + stored constants)};
+    valof(store event) -> the constant stored, or None.
+    State: per flag a subset of its domain (absent = the whole domain) narrowed by branch outcomes (`if`, `switch`,
+    also through a local that holds a copy of the flag) and constant stores, widened to the whole domain by any
+    other store; joined by union.  Returns ({(b,i): state}, values(state, flag))."""
+    al = addr_aliases(g)
+    names = set(domains)
+
+    def fl(x):
+        p = gpath(x, al, cached_ok=True)
+        p = '.'.join(p) if p else None
+        return p if p in names else None
+
+    def getv(S, f):
+        for (k, v) in S[0]:
+            if k == f:
+                return v
+        return domains[f]
+
+    def setv(S, f, vals):
+        d = dict(S[0])
+        vals = frozenset(vals)
+        if vals == domains[f]:
+            d.pop(f, None)
+        else:
+            d[f] = vals
+        return (frozenset(d.items()), S[1])
+
+    def tr(e, S):
+        if e['ev'] == 'store':
+            p = gpath(e['lhs'], al)
+            p = '.'.join(p) if p else None
+            if p is not None:
+                for f in names:
+                    if f == p or f.startswith(p + '.') or p.startswith(f + '.'):
+                        v = valof(e) if f == p else None
+                        S = setv(S, f, [v] if v is not None else domains[f])
+                        S = (S[0], frozenset(a for a in S[1] if a[1] != f))
+            l = strip(e['lhs'])
+            if isinstance(l, dict) and l.get('k') == 'var' and l.get('vk') not in ('global', 'staticlocal'):
+                S = (S[0], frozenset(a for a in S[1] if a[0] != l['name']))
+                src = fl(e['rhs']) if e.get('op') == '=' and 'rhs' in e else None
+                if src is not None:
+                    S = (S[0], S[1] | {(l['name'], src)})
+        elif e['ev'] == 'call':
+            for a in e.get('args', []):
+                t = pointee(a, al)
+                if t is None:
+                    continue
+                v = strip(t)
+                if isinstance(v, dict) and v.get('k') == 'var' and v.get('vk') not in ('global', 'staticlocal'):
+                    S = (S[0], frozenset(x for x in S[1] if x[0] != v['name']))
+                f = fl(t)
+                if f is not None:
+                    S = setv(S, f, domains[f])
+        return S
+
+    def flag_of(x, S):
+        f = fl(x)
+        if f is not None:
+            return f
+        v = strip(x)
+        if isinstance(v, dict) and v.get('k') == 'var':
+            for (loc, f2) in S[1]:
+                if loc == v['name']:
+                    return f2
+        return None
+
+    CMP = {'==': lambda v, c: v == c, '!=': lambda v, c: v != c, '<': lambda v, c: v < c, '>': lambda v, c: v > c,
+           '<=': lambda v, c: v <= c, '>=': lambda v, c: v >= c}
+
+    def edge(blk, si, S):
+        t = blk.term
+        if not t or t.get('cond') is None or t.get('cls') == 'MethodDispatch':
+            return S
+        if t.get('cls') == 'SwitchStmt':
+            cases = t.get('cases') or []
+            f = flag_of(t['cond'], S)
+            if f is None or si >= len(cases):
+                return S
+            me = cases[si]
+            cur = getv(S, f)
+            if isinstance(me, int):
+                return setv(S, f, [v for v in cur if v == me])
+            if me == 'default':
+                return setv(S, f, [v for v in cur if all(v != c for c in cases if isinstance(c, int))])
+            return S
+        if len(blk.succ) != 2:
+            return S
+        for (op, lc, rc, l, r) in norm_cond(t['cond'], si == 0):
+            if op not in CMP:
+                continue
+            f = flag_of(l, S)
+            if f is None:
+                continue
+            try:
+                c = int(rc)
+            except ValueError:
+                continue
+            S = setv(S, f, [v for v in getv(S, f) if CMP[op](v, c)])
+        return S
+
+    def join(a, b):
+        if a == b:
+            return a
+        da, db = dict(a[0]), dict(b[0])
+        d = {}
+        for f in da:
+            if f in db:
+                u = da[f] | db[f]
+                if u != domains[f]:
+                    d[f] = u
+        return (frozenset(d.items()), a[1] & b[1])
+    _, ev_in = forward(g, (frozenset(), frozenset()), tr, join, edge=edge)
+    return ev_in, getv
 
 
 def satisfies(v, atoms):
